@@ -204,6 +204,9 @@ func (b *BeaconBlockBody) CheckLimits(spec *common.Spec) error {
 	if x := uint64(len(b.ExecutionPayload.Transactions)); x > uint64(spec.MAX_TRANSACTIONS_PER_PAYLOAD) {
 		return fmt.Errorf("too many transactions: %d", x)
 	}
+	if x := uint64(len(b.ExecutionPayload.Withdrawals)); x > uint64(spec.MAX_WITHDRAWALS_PER_PAYLOAD) {
+		return fmt.Errorf("too many withdrawals: %d", x)
+	}
 	if x := uint64(len(b.BLSToExecutionChanges)); x > uint64(spec.MAX_BLS_TO_EXECUTION_CHANGES) {
 		return fmt.Errorf("too many bls-to-execution changes: %d", x)
 	}
